@@ -271,5 +271,17 @@ func parseDuration(s *string, def time.Duration) (time.Duration, error) {
 	}
 
 	// Use the user's value, but validate it per the RFC.
-	return time.ParseDuration(*s)
+	d, err := time.ParseDuration(*s)
+	if err != nil {
+		return 0, err
+	}
+
+	// Every duration parsed here is sent in an unsigned field which holds at
+	// most ndp.Infinity. Values outside of that range would wrap around on
+	// the wire: a negative lifetime would be advertised as (nearly) infinite.
+	if d < 0 || d > ndp.Infinity {
+		return 0, fmt.Errorf("duration %s must be between 0 and %s, or \"infinite\"", d, ndp.Infinity)
+	}
+
+	return d, nil
 }
